@@ -80,6 +80,10 @@ def run_impl(base: int, n: int, init: list, ops: list[tuple[str, object]]):
                 u.add(arg)
             elif name == 'disc':
                 u.discard(arg)
+            elif name in ('upd', 'dupd'):
+                entries, as_string = arg
+                val = render_subset_string(entries) if as_string else list(entries)
+                (u.update if name == 'upd' else u.difference_update)(val)
             else:
                 o = UnicodeSubset(list(arg))
                 if name == 'ior':
@@ -97,8 +101,22 @@ def run_impl(base: int, n: int, init: list, ops: list[tuple[str, object]]):
     return outs, comp
 
 
+def render_subset_string(entries) -> str:
+    """regex character-subset text of an entry list (only used on windows of letters/CJK, where no
+    character needs escaping): `a` for an int, `a-c` for the range (ord(a), ord(c)+1)"""
+    return ''.join(chr(c) if isinstance(c, int) else f'{chr(c[0])}-{chr(c[1] - 1)}' for c in entries)
+
+
+def argstr(name, arg) -> str:
+    if name in ('add', 'disc'):
+        return estr(arg)
+    if name in ('upd', 'dupd'):
+        return lstr(arg[0])
+    return lstr(arg)
+
+
 def line_of(base, n, init, ops) -> str:
-    o = ';'.join(f'{name} {estr(arg) if name in ("add", "disc") else lstr(arg)}' for name, arg in ops)
+    o = ';'.join(f'{name} {argstr(name, arg)}' for name, arg in ops)
     return f'W={base},{n} I={lstr(init)} OPS={o};'
 
 
@@ -128,7 +146,10 @@ def gen_canon_list(rng, base, n, density):
 def gen_case(rng, quick=True):
     hi = rng.random() < 0.15
     n = rng.choice([12, 16, 24, 40])
-    base = (MAXCP1 - n) if hi else rng.choice([0, 0, 0, 60])
+    base = (MAXCP1 - n) if hi else rng.choice([0, 0, 60, 97, 0x4E00])
+    if base == 97:
+        n = min(n, 24)
+    stringable = base in (97, 0x4E00)
     init = gen_canon_list(rng, base, n, rng.choice([0, 0.1, 0.3])) if rng.random() < 0.8 else []
     ops = []
     safe_only = rng.random() < 0.35   # sequences biased to merges that are far apart
@@ -136,13 +157,19 @@ def gen_case(rng, quick=True):
         r = rng.random()
         if r < 0.45:
             ops.append(('add', gen_entry(rng, base, n)))
-        elif r < 0.75:
+        elif r < 0.70:
             ops.append(('disc', gen_entry(rng, base, n)))
+        elif r < 0.82:
+            # update()/difference_update() with an arbitrary (unsorted, possibly overlapping) iterable
+            # of entries, or with the equivalent character-subset string
+            entries = [gen_entry(rng, base, n) for _ in range(rng.randint(0, 6))]
+            ops.append((rng.choice(['upd', 'upd', 'dupd']), (entries, stringable and rng.random() < 0.5)))
         else:
             name = rng.choice(['ior', 'isub', 'iand', 'ixor'])
             ops.append((name, gen_canon_list(rng, base, n, rng.choice([0.05, 0.2, 0.5]))))
     if safe_only:
-        ops = [(a, (b if not (isinstance(b, tuple) and b[1] - b[0] == 1) else b[0])) for a, b in ops]
+        ops = [(a, (b if not (isinstance(b, tuple) and len(b) == 2 and isinstance(b[0], int) and b[1] - b[0] == 1)
+                    else b[0])) for a, b in ops]
     return base, n, init, ops
 
 
@@ -155,6 +182,8 @@ CORPUS = [
     (0, 12, [(0, 12)], [('disc', (3, 5)), ('disc', 0), ('disc', 11), ('add', (3, 5))]),
     (MAXCP1 - 12, 12, [], [('add', MAXCP1 - 1), ('disc', MAXCP1 - 1), ('add', (MAXCP1 - 3, MAXCP1))]),
     (0, 12, [1, 3, 5], [('ixor', [(0, 6)]), ('iand', [2, 4]), ('isub', [2])]),
+    (97, 20, [], [('upd', ([97, 99, 98, (101, 104)], True)), ('dupd', ([(98, 100)], True)), ('upd', ([(100, 102), 100], False))]),
+    (0, 16, [2], [('upd', ([(4, 6), 5, (5, 8), 1], False)), ('dupd', ([7, 6, (0, 3)], False))]),
 ]
 
 
@@ -214,8 +243,8 @@ def correspond(run: Run) -> None:
     rng = run.rng
     n = run.scale(1500, 30000)
     cases = list(CORPUS) + [gen_case(rng, run.quick) for _ in range(n)]
-    run.stats.rule = ('operation sequences (1..14 quick / 1..25 thorough ops: add, discard, |=, -=, &=, ^= '
-                      'with int / range / subset arguments) over windows of 12..40 code points at 0, 60 and just '
+    run.stats.rule = ('operation sequences (1..14 quick / 1..25 thorough ops: add, discard, |=, -=, &=, ^=, update, '
+                      'difference_update with int / range / subset / arbitrary iterable / character-subset string arguments) over windows of 12..40 code points at 0, 60 and just '
                       'below maxunicode, from canonical initial lists; after every op the codepoints list, '
                       'membership of every window point, len/iter/reversed and finally complement() are compared. '
                       'distinct = distinct request lines with at least one op')
@@ -353,7 +382,7 @@ def body(run: Run) -> int:
     run.stats.extra['tables'] = info
     run.trusted_base += ['translator harness/c13.py::translate_tables (prints live tables as Lean literals)',
                          'unicodedata of the running CPython as the category oracle']
-    run.assumptions += ['Python set/int semantics in the harness', 'string arguments of update() are not modelled']
+    run.assumptions += ['Python set/int semantics in the harness', 'string arguments of update() only over letters/CJK (no escapes): iterparse_character_subset escapes are not modelled']
     run.prove(['EPV.Props.C13', 'EPV.Props.C13Tables'], ['EPV.Spec.SetSpec'])
     table_viol = []
     for k, cps in info['python_side_table_diffs']:
